@@ -320,7 +320,7 @@ def finding(fid):
 
 
 OBLIGATION_TO_FINDING = {
-    "read_pdf/policy#aes-provider-ensured": "F28-pdf-aes128-empty-password",
+    "read_pdf/typestate#aes-provider-ensured": "F28-pdf-aes128-empty-password",
     "is_odf_encrypted/ensures#true-only-if": "F18-odf-substring",
     "_extract_from_zip_optimized/exc-ensures#encrypted-error-only-if": "F25-zip-runtimeerror-as-encrypted",
     "_extract_from_7z_optimized/exc-ensures#aes-coded-header": "F26-7z-encrypted-header",
@@ -364,6 +364,13 @@ def sweep():
             want = "encrypted" if flagged is not None else "ok"
             if res[0] != want or (want == "encrypted" and res[1] != 0):
                 return fail("read_archive(zip)", {"members": n, "flagged_index": flagged}, want + " (0 results before)", str(res))
+    # a flagged member that is never read (hidden / resource fork / unsupported type / nested archive) still makes the archive encrypted
+    for skipped in (".hidden.txt", "__MACOSX/._a.txt", "blob.unsupported-ext", "inner.zip"):
+        for order in (0, 1):
+            mem = [(skipped, b"secret", 1, None), ("a.txt", b"plain text", 0, None)]
+            res = run(read_archive, zip_bytes(mem[::-1] if order else mem), "x.zip")
+            if res[0] != "encrypted" or res[1] != 0:
+                return fail("read_archive(zip)", {"members": [m_[0] for m_ in (mem[::-1] if order else mem)], "flagged": skipped}, "encrypted (0 results before)", str(res))
     res = run(read_archive, zip_bytes([("d/", b"", 1, None), ("d/a.txt", b"plain", 0, None)]), "x.zip")      # flag on a directory entry only
     if res[0] == "encrypted":
         return fail("read_archive(zip)", {"members": "directory entry with flag bit 0, plain file"}, "not encrypted", str(res))
@@ -761,6 +768,41 @@ def validate_views():
     return out
 
 
+def _tree_digest():
+    import hashlib
+    h = hashlib.sha256()
+    root = os.path.join(REPO, "sharepoint2text")
+    for dp, dn, fn in sorted(os.walk(root)):
+        if os.sep + "tests" in dp:
+            continue
+        for f in sorted(fn):
+            if f.endswith(".py"):
+                p_ = os.path.join(dp, f)
+                h.update(p_.encode())
+                h.update(open(p_, "rb").read())
+    h.update(open(os.path.abspath(__file__), "rb").read())
+    return h.hexdigest()
+
+
+def cached_sweep():
+    """The sweep does not depend on the obligation asked about: one run per (library tree, replayer) version."""
+    import json
+    path = os.path.join(tempfile.gettempdir(), "c08_sweep_" + _tree_digest()[:24] + ".json")
+    try:
+        with open(path) as fh:
+            return json.load(fh)["result"]
+    except Exception:  # noqa
+        pass
+    r = sweep()
+    try:
+        with open(path + ".tmp", "w") as fh:
+            json.dump({"result": r}, fh, default=repr)
+        os.replace(path + ".tmp", path)
+    except Exception:  # noqa
+        pass
+    return r
+
+
 def find(req):
     import logging
     logging.disable(logging.CRITICAL)
@@ -770,11 +812,7 @@ def find(req):
         ok, inputs, obs = finding(req["known_finding"])
         return {"reproduced": bool(ok), "inputs": inputs, "observed": obs, "expected": EXPECT}
     ob = req.get("obligation", "")
-    if "patch_pypdf_fallback_aes" in ob or "pdf_extractor" in ob:
-        r = aes_patch_check() or embedded_pdfs()
-        if r is not None:
-            return r
-    r = sweep()
+    r = cached_sweep()
     if r is not None:
         return r
     for key, fid in OBLIGATION_TO_FINDING.items():
